@@ -119,3 +119,83 @@ def check_type_unit(prop):
     return Unit(prop, "jsonargparse._typehints:ActionTypeHint._check_type", ct_setup, ct_post, ct_raises, expect_cover=("return", "raise:TypeError"), max_paths=60000,
                 trusted=["parse_value_or_config(text) returns (loaded value, Path of the config file or None) or raises a loader exception", "adapt_typehints: by contract (C02 units); it may edit prev_val in place",
                          "single (non-list) action value; no sub-defaults context"])
+
+
+# ------------------------------------------------------------------------------------------------ ActionTypeHint.__call__ (the argv path)
+def atc_setup(ctx):
+    use = ["argv", "factory", "factory-nargs-0"][ctx.choose(3, "use")]
+    opt = ["--m", "--m.sub", "--m.init_args.sub", "--m+", None][ctx.choose(5, "option-string")] if use == "argv" else "--m"
+    optional_none = ctx.choose(2, "nargs=?-and-no-value") == 1 if use == "argv" and opt == "--m" else False
+    result_kind = ["scalar", "subclass-spec"][ctx.choose(2, "checked-value")] if use == "argv" and not optional_none else "scalar"
+    prev_kind = ["none", "spec-with-init_args", "spec-without-init_args", "not-a-spec"][ctx.choose(4, "previous-value")] if result_kind == "subclass-spec" else "none"
+    ctx.classes.add("NestedArg", ["tuple"])
+    given = z3.String("given text")
+    new_init = Rec("init_args of the new value")
+    checked = Rec("Namespace", attrs={"spec": True}, methods={"get": lambda c, s_, a, k: new_init if a[0] == "init_args" else None}) if result_kind == "subclass-spec" else Rec("checked value")
+    prev_init = Rec("init_args of the previous value")
+    prev = {"none": None, "spec-with-init_args": Rec("Namespace", attrs={"spec": True, "init_args": prev_init}, methods={"__contains__": lambda c, s_, a, k: a[0] == "init_args"}),
+            "spec-without-init_args": Rec("Namespace", attrs={"spec": True}, methods={"__contains__": lambda c, s_, a, k: False}), "not-a-spec": z3.Int("prev")}[prev_kind]
+    store = {"m": prev} if prev is not None else {}
+    cfg = Rec("Namespace", methods={"get": lambda c, s_, a, k: store.get(a[0]), "update": lambda c, s_, a, k: (c.event("update", a[0], a[1]), store.__setitem__(a[1], a[0]))[1]})
+
+    def check_type_(c, s_, a, k):
+        c.event("_check_type_", a[0], dict(k))
+        return checked
+
+    self = Rec("ActionTypeHint", attrs={"dest": "m", "nargs": "?" if optional_none else None, "_typehint": Rec("typehint"), "_enable_path": z3.Bool("enable_path")}, methods={"_check_type_": check_type_})
+    made = []
+    calls = {"NestedArg": lambda c, a, k: Rec("NestedArg", attrs=dict(k)), "is_subclass_spec": lambda c, a, k: isinstance(a[0], Rec) and a[0].attrs.get("spec", False),
+             "ActionTypeHint.discard_init_args_on_class_path_change": lambda c, a, k: c.event("discard", a[0], a[1], a[2]),
+             "ActionTypeHint": lambda c, a, k: (made.append(dict(k)), Rec("new ActionTypeHint"))[1]}
+    if use == "argv":
+        args = (Rec("parser"), cfg, None if optional_none else given, opt)
+        kwargs = {}
+    else:
+        args = ()
+        kwargs = {"option_strings": ["--m"], "dest": "m"}
+        if use == "factory-nargs-0":
+            kwargs["nargs"] = 0
+    return Setup(env={"self": self, "args": args, "kwargs": kwargs}, calls=calls, data=dict(use=use, opt=opt, optional_none=optional_none, result_kind=result_kind, prev_kind=prev_kind, given=given, checked=checked,
+                                                                                         prev=prev, prev_init=prev_init, new_init=new_init, store=store, cfg=cfg, self_=self, made=made))
+
+
+def atc_post(ctx, st, result):
+    d = st.data
+    tag = f"[{d['use']},{d['opt']}{',no value' if d['optional_none'] else ''},{d['result_kind']},prev:{d['prev_kind']}]"
+    if d["use"] != "argv":
+        ctx.oblige("post", "called-by-argparse-to-create-the-action:same-type-hint-and-path-setting,nargs=0-refused" + tag,
+                   d["use"] == "factory" and len(d["made"]) == 1 and d["made"][0].get("_typehint") is d["self_"].attrs["_typehint"] and d["made"][0].get("_enable_path") is d["self_"].attrs["_enable_path"]
+                   and d["made"][0].get("dest") == "m" and isinstance(result, Rec) and result.cls == "new ActionTypeHint")
+        return
+    ev = [e for e in ctx.events if e[0] == "_check_type_"]
+    upd = [e for e in ctx.events if e[0] == "update"]
+    if d["optional_none"]:
+        ctx.oblige("post", "an-optional-argument-given-without-a-value-stores-None-unchecked" + tag, not ev and len(upd) == 1 and upd[0][1] is None and upd[0][2] == "m")
+        return
+    ctx.oblige("post", "the-value-is-type-checked-once,with-the-configuration-so-far" + tag, len(ev) == 1 and ev[0][2].get("cfg") is d["cfg"])
+    if len(ev) != 1:
+        return
+    val = ev[0][1]
+    if d["opt"] in ("--m.sub", "--m.init_args.sub"):
+        ctx.oblige("post", "--dest.K=v-and---dest.init_args.K=v-denote-the-same-nested-setting(K, v)" + tag, isinstance(val, Rec) and val.cls == "NestedArg" and val.attrs.get("key") == "sub" and val.attrs.get("val") is d["given"])
+    else:
+        ctx.oblige("post", "otherwise-the-text-given-is-what-is-checked" + tag, val is d["given"])
+    ctx.oblige("post", "--dest+-appends,every-other-spelling-replaces" + tag, ev[0][2].get("append") is (d["opt"] == "--m+"))
+    ctx.oblige("post", "the-checked-value-is-stored-under-the-option's-dest(overriding what was there: argv is applied left to right)" + tag,
+               len(upd) == 1 and upd[0][1] is d["checked"] and upd[0][2] == "m" and result is None)
+    dis = [e for e in ctx.events if e[0] == "discard"]
+    if d["result_kind"] == "subclass-spec" and d["prev_kind"] == "spec-with-init_args":
+        ctx.oblige("post", "a-new-class-spec-over-a-previous-one:init_args-of-a-changed-class-are-discarded-from-(previous, new)" + tag,
+                   len(dis) == 1 and dis[0][1] is d["self_"] and dis[0][2] is d["prev_init"] and dis[0][3] is d["new_init"])
+    else:
+        ctx.oblige("post", "no-discarding-otherwise" + tag, not dis)
+
+
+def atc_raises(ctx, st, exc):
+    d = st.data
+    ctx.oblige("raises", f"only-nargs=0-at-creation-is-refused[{d['use']}](got {exc.cls})", d["use"] == "factory-nargs-0" and exc.cls == "ValueError")
+
+
+def typehint_call_unit(prop):
+    return Unit(prop, "jsonargparse._typehints:ActionTypeHint.__call__", atc_setup, atc_post, atc_raises, expect_cover=("return", "raise:ValueError"), max_paths=5000,
+                trusted=["_check_type_ is _check_type (its own unit) with the error conversion", "cfg.update(value, key) stores value under key (C11)", "discard_init_args_on_class_path_change: its own unit"])
